@@ -8,6 +8,7 @@ import (
 	"fmt"
 	"go/ast"
 	"go/token"
+	"go/types"
 	"sort"
 	"strings"
 )
@@ -802,21 +803,25 @@ func ruleHndRangeInt(c *Ctx, r *R) {
 		return
 	}
 	nIter, counting := 0, false
+	isIter := func(t types.Type) bool {
+		sig, ok := t.Underlying().(*types.Signature)
+		return ok && sig.Params().Len() == 0 && sig.Results().Len() == 3
+	}
 	ast.Inspect(sc.Clause, func(n ast.Node) bool {
 		call, ok := n.(*ast.CallExpr)
-		if !ok || c.CalleeName(call) != "newNext" || len(call.Args) != 1 {
-			return true
-		}
-		nIter++
-		inner, ok := unparen(call.Args[0]).(*ast.CallExpr)
 		if !ok {
 			return true
 		}
-		// a plain function (not the operand's Range method) that receives the operand
-		if sel, ok := unparen(inner.Fun).(*ast.SelectorExpr); ok && c.Info.Selections[sel] != nil {
+		t := c.TypeOf(call)
+		if t == nil || !isIter(t) {
 			return true
 		}
-		for _, a := range inner.Args {
+		nIter++
+		// a plain function (not the operand's Range method) that receives the operand
+		if sel, ok := unparen(call.Fun).(*ast.SelectorExpr); ok && c.Info.Selections[sel] != nil {
+			return true
+		}
+		for _, a := range call.Args {
 			if isNamed(c.TypeOf(a), "Value") {
 				counting = true
 			}
